@@ -27,7 +27,7 @@ LEVEL_NOTE = ('Trusted: mc/gf2.py; validity of the listed logicals (C01). Config
 RULE = ('full: every e in {I,X,Y,Z}^n for each (class, size, deformation) with n <= bound; structured: single-qubit '
         'X/Y/Z on every qubit, every generator, every logical, every product of two generators (capped per code, cap '
         'reported), generator x logical, generator x single-qubit error; non-trivial = distinct non-identity '
-        'operators per configuration')
+        'operators per configuration; the structured family also on used objects and in per-class sessions')
 ASSUMPTIONS = ['listed logical operators are valid (C01)', 'GF(2) reference mc/gf2.py']
 BOUNDS = {'quick': {'full_n': 6, 'struct_n': 40, 'struct_l_max': 4, 'pair_cap': 100},
           'thorough': {'full_n': 8, 'struct_n': 150, 'struct_l_max': 5, 'pair_cap': 4000}}
